@@ -3,6 +3,8 @@ import NetqasmVerif.Driver.Gates
 import NetqasmVerif.Driver.Toolbox
 import NetqasmVerif.Driver.Bell
 import NetqasmVerif.Driver.QubitMgr
+import NetqasmVerif.Driver.Angle
+import NetqasmVerif.Driver.Hub
 open Lean NQ.Drv
 
 def handlers : List (String → Json → Option Json) := [
@@ -10,7 +12,9 @@ def handlers : List (String → Json → Option Json) := [
   handleGates,
   handleToolbox,
   handleBell,
-  handleQubitMgr]
+  handleQubitMgr,
+  handleAngle,
+  handleHub]
 
 def dispatch (j : Json) : Json :=
   match (jField? j "op").bind jStr? with
